@@ -453,9 +453,8 @@ void h_malloc(void)
     vin_load();
     build();
     struct view pre, post; observe(&pre);
-    /* ANY request whose unit count fits the code's `int nb_units` (the others: h_malloc_beyond_int) */
-    size_t want = vin.size / UNIT + ((vin.size % UNIT) != 0);
-    V_ASSUME(want <= (size_t)INT_MAX);
+    /* ANY size_t request (no assumption on the size: the unit count of the spec, ceil(size/unit), is computed without
+     * wrap-around in check_malloc; a count above N must give NULL) */
     void *r = zone_malloc(Z, vin.size);
     observe(&post);
     check_malloc(&pre, vin.size, r, &post, 1);
@@ -471,7 +470,6 @@ void h_malloc_any_size(void)
     Z = zone_malloc_init(BASE, N, UNIT);
     SEGS = Z->segments; g_init_node = (zone_malloc_chunk_list_t *)g_tree[N];
     size_t want = vin.size / UNIT + ((vin.size % UNIT) != 0);
-    V_ASSUME(want <= (size_t)INT_MAX);
     void *r = zone_malloc(Z, vin.size);
     V_ASSERT(V_IFF(r == NULL, want == 0 || want > (size_t)N), "C28.zone_malloc.post.any_size.null_iff_zero_or_more_units_than_zone");
     V_ASSERT(r == NULL || r == (void *)BASE, "C28.zone_malloc.post.any_size.first_allocation_at_base");
@@ -480,20 +478,26 @@ void h_malloc_any_size(void)
     V_CANARY("malloc_any_size");
 }
 
-/* requests whose unit count does not fit the code's `int nb_units` (two concrete witnesses per process) */
-void h_malloc_beyond_int(void)
+/* every request needing more units than the zone holds (this includes the sizes whose unit count does not fit the
+ * code's `int nb_units`: 2^31*unit bytes and more, repaired by 6026e99) fails and changes nothing */
+void h_malloc_oversized(void)
 {
     vin_load();
     g_tree_bad = 0;
     Z = zone_malloc_init(BASE, N, UNIT);
     SEGS = Z->segments; g_init_node = (zone_malloc_chunk_list_t *)g_tree[N];
     struct view pre, post; observe(&pre);
-    size_t size = vin.exact ? ((size_t)1 << 32) * UNIT + 1 : ((size_t)1 << 31) * UNIT + 1;   /* 2^32+1 / 2^31+1 units */
-    void *r = zone_malloc(Z, size);
+    size_t want = vin.size / UNIT + ((vin.size % UNIT) != 0);
+    V_ASSUME(want > (size_t)N);
+#ifdef BEYOND_INT
+    V_ASSUME(want > (size_t)INT_MAX);          /* the formerly defective sub-domain, on its own */
+#endif
+    void *r = zone_malloc(Z, vin.size);
     observe(&post);
     V_ASSERT(r == NULL, "C28.zone_malloc.post.request_larger_than_zone_fails");
     V_ASSERT(same_outside(&pre, &post, 0, 0) & WF(post), "C28.zone_malloc.post.oversized_request_changes_nothing");
-    V_CANARY("malloc_beyond_int");
+    V_ASSERT(zone_in_use(Z) == 0, "C28.zone_malloc.post.oversized_request_nothing_in_use");
+    V_CANARY("malloc_oversized");
 }
 
 /* ------------------------------------------------------------------------------------------------ */
